@@ -87,12 +87,12 @@ def case_class(tc, cfg):
     return {"form": tc["form"], "top": top, "vleaf": m[-1], "depth": tc["depth"], "kway": kway, "vway": vway, "cfg": cfg}
 
 
-def assemble(ctxprog, cases, lits, with_struct=True):
+def assemble(ctxprog, cases, lits, with_struct=lambda tc: True):
     prog = copy.deepcopy(ctxprog)
     for tc in cases:
         for d in tc["defs"]:
-            kind = {"typedefs": "typedef", "consts": "const", "structs": "struct"}[d["sec"]]
-            if kind == "struct" and not (with_struct and tc.get("with_struct", True)):
+            kind = {"typedefs": "typedef", "consts": "const", "structs": "struct", "enums": "enum"}[d["sec"]]
+            if kind == "struct" and d["d"]["name"] == tc["struct"]["name"] and not with_struct(tc):
                 continue
             prog["files"][d["file"] - 1]["defs"].append(model.def_to_idl(kind, d["d"], lits))
     return prog
@@ -175,15 +175,21 @@ def scan_go(path):
     names, ctors = [], []
     depth = 0
     in_block = False
+    pending = None
     for ln in txt.split("\n"):
         s = ln.strip()
         if not in_block:
+            if pending and s:
+                # a struct-like's constructor builds a composite literal (a typedef's converts another constructor's result)
+                if s.startswith("return &" + pending + "{"):
+                    ctors.append(pending)
+                pending = None
             if s in ("const (", "var ("):
                 in_block, depth = True, 0
             else:
                 m = re.match(r"func New(\w+)\(\) \*(\w+)\s*\{", s)
                 if m and m.group(1) == m.group(2):
-                    ctors.append(m.group(1))
+                    pending = m.group(1)
             continue
         if depth == 0:
             if s == ")":
@@ -292,8 +298,8 @@ def first_diff(e, o, path=""):
 class Unit:
     """one generated program: a chunk of cases (or a single case after isolation) under one configuration"""
 
-    def __init__(self, cid, cases, cfg, opts, single=False):
-        self.cid, self.cases, self.cfg, self.opts, self.single = cid, cases, cfg, opts, single
+    def __init__(self, cid, cases, cfg, opts, single=False, level=0):
+        self.cid, self.cases, self.cfg, self.opts, self.single, self.level = cid, cases, cfg, opts, single, level
         self.prog = None
         self.ok = False
 
@@ -311,7 +317,17 @@ class Runner:
         self.soft = 0
 
     def add(self, unit):
-        unit.prog = assemble(self.ctxprog, unit.cases, self.lits)
+        if unit.prog is not None:          # replay: the program is given
+            self.units[unit.cid] = unit
+            self.lab.add_case(unit.cid, unit.prog, unit.opts)
+            return
+        # use_type_alias=false: the serialization code generated for fields (or container elements) of a typedef'd base
+        # type does not compile (C01's business, not a statement about constants or defaults); for those cases the
+        # constants are what is judged
+        unit.prog = assemble(self.ctxprog, unit.cases, self.lits,
+                             with_struct=lambda tc: not (unit.cfg == "noalias" and (
+                                 tc["form"] == "v" or (tc["form"] in ("t", "u") and tc["depth"] == 0 and
+                                                       tc["sig"] not in ("In", "b.BIn")))))
         if unit.single:
             keep = {}
             for tc in unit.cases:
@@ -323,17 +339,34 @@ class Runner:
 
     def viol(self, check, kind, unit, tc, observed, expected, what):
         cls = dict(case_class(tc, unit.cfg), check=check, kind=kind)
+        if self.ctxprog is None:
+            self.ctx.violation(cls, {"id": tc["id"], "opts": unit.opts}, observed, expected, what)
+            return
         prog = assemble(self.ctxprog, [tc], self.lits)
+        keep = {}
+        for d in tc["defs"]:
+            keep.setdefault(d["file"] - 1, set()).add(d["d"]["name"])
+        prune(prog, keep)
         self.ctx.violation(cls, {"id": tc["id"], "sig": tc["sig"], "way": tc["way"], "form": tc["form"], "opts": unit.opts,
-                                 "idl": {f["path"]: idl.render_file(f) for f in prog["files"]}},
+                                 "cfg": unit.cfg, "idl": {f["path"]: idl.render_file(f) for f in prog["files"]},
+                                 "prog": prog, "tc": tc},
                            observed, expected, what)
 
     def split(self, unit):
+        """a failing program is split by class of case first (a defect usually hits a whole class), then into single cases"""
         out = []
-        for k, tc in enumerate(unit.cases):
-            u = Unit("%sx%d" % (unit.cid, k), [tc], unit.cfg, unit.opts, single=True)
+        groups = {}
+        for tc in unit.cases:
+            groups.setdefault((tc["form"], tc["way"]), []).append(tc)
+        if unit.level == 0 and len(groups) > 1:
+            for k, g in enumerate(groups.values()):
+                out.append(Unit("%sg%d" % (unit.cid, k), g, unit.cfg, unit.opts, single=len(g) == 1, level=1))
+        else:
+            for k, tc in enumerate(unit.cases):
+                out.append(Unit("%sx%d" % (unit.cid, k), [tc], unit.cfg, unit.opts, single=True, level=2))
+        for u in out:
             self.add(u)
-            out.append(u)
+        vlib.log("  %s failed as a whole: split into %d programs" % (unit.cid, len(out)))
         return out
 
     # ---- stage A: thriftgo
@@ -373,6 +406,8 @@ class Runner:
         imports, lines = {}, []
         u.consts, u.structs, u.api_problem = [], [], None
         for fi, f in enumerate(u.prog["files"]):
+            if not any(d["k"] in ("const", "struct", "union", "exception") for d in f["defs"]):
+                continue
             ip = genlab.Lab.go_pkg_path(u.lc, f)
             al = imports.setdefault(ip, "p%d" % len(imports))
             names, ctors = scan_go(go_file(self.lab, u.lc, f))
@@ -390,7 +425,7 @@ class Runner:
                 expr = SCALAR_CONV.get(st["n"], "%s") % ("%s.%s" % (al, gname))
                 lines.append('\tc06.RegisterConst("%s", func() interface{} { return %s })' % (key, expr))
                 u.consts.append((key, fi + 1, d["name"], st, gname))
-            sdefs = [d for d in f["defs"] if d["k"] == "struct"]
+            sdefs = [d for k in ("struct", "union", "exception") for d in f["defs"] if d["k"] == k]
             if len(ctors) != len(sdefs):
                 u.api_problem = "%s: %d structs in the IDL, %d constructors generated" % (f["path"], len(sdefs), len(ctors))
                 return
@@ -403,7 +438,7 @@ class Runner:
         src = ["// Code generated by /verif/checks/c06.py. DO NOT EDIT.", "package " + pk, "", "import (",
                '\t"github.com/apache/thrift/lib/go/thrift"', '\t"verifharness/pkg/c06"', '\t"verifharness/pkg/drv"']
         src += ['\t%s "%s"' % (al, ip) for ip, al in imports.items()]
-        src += [")", "", "var _ = thrift.STOP", "", "func Register() {", '\tc06.RegisterCase("%s")' % u.cid] + lines + ["}", ""]
+        src += [")", "", "var _ = thrift.STOP", "var _ = drv.Register", "", "func Register() {", '\tc06.RegisterCase("%s")' % u.cid] + lines + ["}", ""]
         with open(os.path.join(d, "reg.go"), "w") as fh:
             fh.write("\n".join(src))
         u.reg = ("labmod/reg/%s" % u.cid, pk)
@@ -447,6 +482,9 @@ class Runner:
                     nxt += self.generate(self.split(u))
                 else:
                     tc = u.cases[0]
+                    if re.search(r"reg/\S+: .*(imported and not used|imported as \w+ and not used|declared and not used)",
+                                 "\n".join(bad[u.cid])):
+                        raise vlib.MachineryError("generated accessor package does not compile:\n" + short("\n".join(bad[u.cid])))
                     self.ctx.count(1, json.dumps(dict(case_class(tc, u.cfg), check="compile"), sort_keys=True))
                     self.viol("C06.compile", "generated-code-does-not-compile", u, tc, short("\n".join(bad[u.cid])),
                               "the generated package compiles and offers the constant", "generated constants/defaults do not compile")
@@ -567,10 +605,21 @@ class Runner:
                              "trace": tc["struct"]["trace"][:6], "expected": exp[:3], "observed": obs[:3]}, limit=6)
 
     def go(self, units):
+        # spellings the statement does not demand may be rejected: they get programs of their own
+        units = list(units)
+        for u in list(units):
+            probes = [tc for tc in u.cases if tc["probe"]]
+            if probes and not u.single:
+                u.cases = [tc for tc in u.cases if not tc["probe"]]
+                for k, tc in enumerate(probes):
+                    units.append(Unit("%sp%d" % (u.cid, k), [tc], u.cfg, u.opts, single=True, level=2))
         for u in units:
             self.add(u)
+        vlib.log("%s: %d programs, %d cases" % (self.tag, len(units), sum(len(u.cases) for u in units)))
         good = self.generate(units)
+        vlib.log("%s: generated; compiling %d programs" % (self.tag, len(good)))
         good = self.compile(good)
+        vlib.log("%s: compiled; running %d programs" % (self.tag, len(good)))
         self.run(good)
 
 
@@ -583,7 +632,7 @@ def relevant(tc, cfg):
     if cfg == "valtype":
         return tc["depth"] >= 1 and bool(kinds & {"In", "b.BIn"})
     if cfg == "noalias":
-        return tc["form"] in ("t", "u")
+        return tc["form"] in ("t", "u", "v")
     return tc["form"] in ("i", "q", "u") or "id" in tc["way"]       # naming styles: identifiers through scopes
 
 
@@ -628,6 +677,8 @@ def run(ctx, args):
     vlib.log("universe d<=1: %d cases (%d constants)" % (len(cases), sum(len(c["consts"]) for c in cases)))
     units = chunks(cases, "default", [], "a", ctxcase)
     for cfg, opts in CONFIGS[1:]:
+        if os.environ.get("C06_DEV_CONFIGS") and cfg not in os.environ["C06_DEV_CONFIGS"].split(","):
+            continue
         if thorough:
             sel = cases
         else:
@@ -680,6 +731,18 @@ def run(ctx, args):
 
 
 def replay(ctx, path):
+    """re-run one recorded case (its pruned program, configuration and TLC-computed expectation)"""
     rp = json.load(open(path))
-    raise vlib.MachineryError("replay: the violating program is in the replay file (case.idl, case.opts); re-run "
-                              "`bin/check C06`; case %s" % json.dumps({k: rp.get("case", {}).get(k) for k in ("id", "sig", "way", "form", "opts")}))
+    case = rp["case"]
+    u = Unit("replay", [case["tc"]], case.get("cfg", "default"), case["opts"], single=True, level=2)
+    u.prog = case["prog"]
+    rn = Runner(ctx, None, None, "replay")
+    rn.go([u])
+    for v in ctx.violations:
+        print("still violated: %s\n  observed: %s\n  expected: %s" % (v["what"], json.dumps(v["observed"])[:1500],
+                                                                    json.dumps(v["expected"])[:1500]))
+    if ctx.known_hits:
+        print("replay: the case still deviates, as a known finding: %s" % ", ".join(ctx.known_hits))
+    elif not ctx.violations:
+        print("replay: the case passes now")
+    return 1 if ctx.violations else 0
